@@ -24,7 +24,7 @@ func (fe *ForExpression) String() string {
 	out.WriteString(", ")
 	out.WriteString(fe.ValueName)
 	out.WriteString(") in ")
-	out.WriteString(fe.Iterable.String())
+	out.WriteString(nodeString(fe.Iterable))
 	out.WriteString(" { ")
 
 	if fe.Block != nil {
